@@ -101,3 +101,13 @@ def termbmc(sel: List[int]) -> bool:
     except Exception:  # noqa: BLE001
         ok = False
     return fin(M, ok, sel=sel)
+
+
+def probe():
+    opts = pj.make_options(1)
+    st = pj.gen_stream(1, opts)
+    st.encoder.names, st.flow, st.repeated_terms  # noqa: B018
+    LookupEncoder(lookup_size=1).lookup.data  # noqa: B018
+    from pyjelly.parse.decode import Decoder
+    Decoder.iter_rows  # noqa: B018
+    LookupDecoder(lookup_size=1).data  # noqa: B018
